@@ -53,6 +53,137 @@ theorem parseIP_shape (s : Str) (h : parseIP s = true) :
       · simp [h58] at h
   · cases h
 
+/-! ### ParseIP: the alphabet of an accepted literal -/
+
+/-- hex digit, ':' or '.' -/
+def ipChar (c : UInt8) : Bool := isHexDigit c || c == 58 || c == 46
+
+theorem isDigit_ipChar {c : UInt8} (h : isDigit c = true ∨ c = 46) : ipChar c = true := by
+  rcases h with h | h
+  · unfold isDigit at h; unfold ipChar isHexDigit; simp [h]
+  · subst h; decide
+
+theorem take_takeWhile_mem (p : UInt8 → Bool) : ∀ (s : Str) (c : UInt8),
+    c ∈ s.take (s.takeWhile p).length → p c = true := by
+  intro s
+  induction s with
+  | nil => intro c h; simp at h
+  | cons x xs ih =>
+    intro c h
+    by_cases hx : p x = true
+    · simp only [List.takeWhile_cons, hx, if_true, List.length_cons, List.take_succ_cons,
+        List.mem_cons] at h
+      rcases h with rfl | h
+      · exact hx
+      · exact ih c h
+    · simp [hx] at h
+
+theorem mem_take_or_drop (n : Nat) (s : Str) (c : UInt8) (h : c ∈ s) : c ∈ s.take n ∨ c ∈ s.drop n := by
+  rw [← List.take_append_drop n s] at h
+  exact List.mem_append.mp h
+
+theorem v6Finish_nil {s : Str} {i : Nat} {ell : Bool} (h : v6Finish s i ell = true) : s = [] := by
+  unfold v6Finish at h
+  cases s with
+  | nil => rfl
+  | cons a b => simp at h
+
+theorem v6Loop_chars : ∀ (fuel : Nat) (s : Str) (i : Nat) (ell : Bool),
+    v6Loop fuel s i ell = true → ∀ c ∈ s, ipChar c = true := by
+  intro fuel
+  induction fuel with
+  | zero =>
+    intro s i ell h c hc
+    unfold v6Loop at h
+    rw [v6Finish_nil h] at hc; cases hc
+  | succ fuel ih =>
+    intro s i ell h c hc
+    unfold v6Loop at h
+    by_cases h16 : 16 ≤ i
+    · simp only [h16, if_true] at h
+      rw [v6Finish_nil h] at hc; cases hc
+    · simp only [h16, if_false] at h
+      by_cases hn4 : 4 < (s.takeWhile isHexDigit).length
+      · simp [hn4] at h
+      · simp only [hn4, if_false] at h
+        by_cases hn0 : (s.takeWhile isHexDigit).length = 0
+        · simp [hn0] at h
+        · simp only [hn0, if_false] at h
+          -- the hex group
+          rcases mem_take_or_drop (s.takeWhile isHexDigit).length s c hc with hct | hcd
+          · have := take_takeWhile_mem isHexDigit s c hct
+            unfold ipChar; simp [this]
+          · by_cases hdot : (s.drop (s.takeWhile isHexDigit).length).head? = some 46
+            · simp only [hdot, if_true] at h
+              simp at h
+              obtain ⟨_, _, h3, _⟩ := h
+              exact isDigit_ipChar (ipv4Loop_chars s _ _ _ _ _ h3 c hc)
+            · simp only [hdot, if_false] at h
+              cases hs1 : s.drop (s.takeWhile isHexDigit).length with
+              | nil => rw [hs1] at hcd; cases hcd
+              | cons x s2 =>
+                rw [hs1] at h hcd
+                simp only at h
+                by_cases hx : x = 58
+                · subst hx
+                  simp only [ne_eq, not_true_eq_false, if_false] at h
+                  rcases List.mem_cons.mp hcd with rfl | hc2
+                  · decide
+                  · cases s2 with
+                    | nil => cases hc2
+                    | cons d s3 =>
+                      simp only at h
+                      by_cases hd : d = 58
+                      · subst hd
+                        simp only [if_true] at h
+                        by_cases hell : ell = true
+                        · simp [hell] at h
+                        · simp only [hell, Bool.false_eq_true, if_false] at h
+                          rcases List.mem_cons.mp hc2 with rfl | hc3
+                          · decide
+                          · by_cases he : s3.isEmpty = true
+                            · cases s3 with
+                              | nil => cases hc3
+                              | cons _ _ => simp at he
+                            · simp only [he, Bool.false_eq_true, if_false] at h
+                              exact ih _ _ _ h c hc3
+                      · simp only [hd, if_false] at h
+                        exact ih _ _ _ h c hc2
+                · simp [hx] at h
+
+theorem parseIPv6_chars (s : Str) (h : parseIPv6 s = true) : ∀ c ∈ s, ipChar c = true := by
+  unfold parseIPv6 at h
+  split at h
+  · rename_i rest
+    intro c hc
+    rcases List.mem_cons.mp hc with rfl | hc
+    · decide
+    · rcases List.mem_cons.mp hc with rfl | hc
+      · decide
+      · by_cases he : rest.isEmpty = true
+        · cases rest with
+          | nil => cases hc
+          | cons _ _ => simp at he
+        · simp only [he, Bool.false_eq_true, if_false] at h
+          exact v6Loop_chars _ _ _ _ h c hc
+  · exact v6Loop_chars _ _ _ _ h
+
+/-- an accepted IP literal consists of hex digits, ':' and '.' only -/
+theorem parseIP_chars (s : Str) (h : parseIP s = true) : ∀ c ∈ s, ipChar c = true := by
+  unfold parseIP at h
+  split at h
+  · rename_i c0 _
+    by_cases h46 : c0 = 46
+    · simp only [h46, if_true] at h
+      exact fun c hc => isDigit_ipChar (ipv4Loop_chars s _ _ _ _ _ h c hc)
+    · simp only [h46, if_false] at h
+      by_cases h58 : c0 = 58
+      · simp only [h58, if_true] at h
+        simp at h
+        exact parseIPv6_chars s h.2
+      · simp [h58] at h
+  · cases h
+
 /-! ### SplitHostPort on the plain `name:port` shape -/
 
 theorem lastIndexOf_none (c : UInt8) : ∀ (s : Str), c ∉ s → lastIndexOf c s = none := by
